@@ -123,7 +123,44 @@ func C20(ctx *core.Ctx) {
 		arg := ssax.Strip(drainCall.Args()[1])
 		okAll := true
 		n := 0
-		for _, c := range ssax.CallsTo(serve, "(*github.com/nats-io/nats.go.Conn).QueueSubscribe", "(*github.com/nats-io/nats.go.Conn).Subscribe") {
+		type subSite struct {
+			c      ssax.Call
+			target ssa.Value
+		}
+		var subSites []subSite
+		for _, g := range localCone(serve, 1) {
+			for _, c := range ssax.CallsTo(g, "(*github.com/nats-io/nats.go.Conn).QueueSubscribe", "(*github.com/nats-io/nats.go.Conn).Subscribe") {
+				if g == serve {
+					subSites = append(subSites, subSite{c, arg})
+					continue
+				}
+				// a subscribing helper: its subscriptions must reach the slice it returns, and the drain gets that result
+				var retSlice ssa.Value
+				for _, vs := range ReturnedValues(g) {
+					if len(vs) > 0 {
+						if _, isSl := vs[0].Type().Underlying().(*types.Slice); isSl {
+							if cst, isC := ssax.Strip(vs[0]).(*ssa.Const); !isC || !cst.IsNil() {
+								retSlice = ssax.Strip(vs[0])
+							}
+						}
+					}
+				}
+				fromHelper := false
+				for _, sc := range ssax.Calls(serve) {
+					if sc.Static == g && dependsOn(arg, sc.Instr.Value(), 0) {
+						fromHelper = true
+					}
+				}
+				if retSlice == nil || !fromHelper {
+					okAll = false
+					n++
+					continue
+				}
+				subSites = append(subSites, subSite{c, retSlice})
+			}
+		}
+		for _, ssite := range subSites {
+			c, arg := ssite.c, ssite.target
 			n++
 			sub := c.Instr.Value()
 			// sub flows (via extract #0, varargs store) into an append whose result reaches arg
@@ -164,9 +201,33 @@ func C20(ctx *core.Ctx) {
 	// ---- R2 ---------------------------------------------------------------------
 	var wg ssa.Value
 	var addCall ssax.Call
-	for _, c := range ssax.CallsTo(serve, "(*sync.WaitGroup).Add") {
-		addCall = c
-		wg = ssax.Strip(c.Common.Args[0])
+	// the worker start-up (Add + spawn loop) may be an extracted helper that is handed the WaitGroup
+	host := serve
+	for _, g := range localCone(serve, 1) {
+		for _, c := range ssax.CallsTo(g, "(*sync.WaitGroup).Add") {
+			addCall = c
+			wg = ssax.Strip(c.Common.Args[0])
+			host = g
+		}
+	}
+	if host != serve && wg != nil {
+		// the helper's WaitGroup is the one Serve waits on
+		same := false
+		for _, c := range ssax.Calls(serve) {
+			if c.Static != host {
+				continue
+			}
+			for i, a := range c.Common.Args {
+				if i < len(host.Params) && ssa.Value(host.Params[i]) == wg {
+					for _, wc := range ssax.CallsTo(serve, "(*sync.WaitGroup).Wait") {
+						if ssax.Strip(wc.Common.Args[0]) == ssax.Strip(a) {
+							same = true
+						}
+					}
+				}
+			}
+		}
+		ctx.Check(same, "C20.R2", sn+" › the WaitGroup given to "+ssax.Name(host)+" is the one Serve waits on", fnPos(r, serve), "same &wg", "workers are counted in a different WaitGroup than the one Serve waits on")
 	}
 	if wg == nil {
 		ctx.Violate("C20.R2", sn+" › WaitGroup.Add", fnPos(r, serve), "workers are not accounted for in a WaitGroup")
@@ -181,7 +242,7 @@ func C20(ctx *core.Ctx) {
 			nOK = true
 		}
 		var spawn *ssa.Go
-		for _, c := range ssax.Calls(serve) {
+		for _, c := range ssax.Calls(host) {
 			if g, ok := c.Instr.(*ssa.Go); ok {
 				spawn = g
 			}
@@ -193,7 +254,7 @@ func C20(ctx *core.Ctx) {
 			ctx.Check(ssax.Dominates(addCall.Instr.(ssa.Instruction), spawn), "C20.R2", sn+" › Add before spawn", r.IPos(spawn), "Add dominates the go statement", "workers can call Done before Add")
 			// loop bound: the go statement sits in a loop guarded by i < f.workerCount with i = φ(0, i+1)
 			boundOK := false
-			for _, b := range serve.Blocks {
+			for _, b := range host.Blocks {
 				iff, ok := b.Instrs[len(b.Instrs)-1].(*ssa.If)
 				if !ok {
 					continue
